@@ -1,8 +1,9 @@
 SPECIFICATION WSpec
 CONSTANTS
   Vars = {"x1", "x2"}
-  Vals = {0, 1, 2}
+  Vals = {0, 1}
   Costs <- CostsSmall
+  Offsets = {0, 3}
 INVARIANT TypeOK
 PROPERTY QueueIsInvisible
 PROPERTY LBLeavesUB
